@@ -237,10 +237,21 @@ def template_histories(tier, seed):
     for su, re_, chain in itertools.product(SETUPS, REPLACE, chains):
         if tier == "quick" and rng.random() > 0.12:
             continue
-        ops = list(SETUPS[su]) + [["commit"]] + list(REPLACE[re_])
+        # the replacement and the later touches are issued from the root with relative paths, with absolute paths, or with
+        # absolute paths through the handle of another group (one that is new in the newest container / one from the base)
+        via = rng.choice(["root", "root", "abs", "new-handle", "old-handle"])
+        def v(o):
+            if via == "root" or not o or o[0] in ("commit", "reopen"):
+                return o
+            o = [o[0], "/" + o[1].lstrip("/")] + o[2:]
+            return o if via == "abs" else ["at", "H" if via == "new-handle" else "O", o]
+        ops = list(SETUPS[su]) + ([["grp", "O"]] if via == "old-handle" else []) + [["commit"]]
+        ops += ([["grp", "H"]] if via == "new-handle" else []) + [v(o) for o in REPLACE[re_]]
         for i, t in enumerate(chain):
             ops.append(["commit"] if rng.random() < 0.85 else ["reopen", "r+"])
-            ops += [[(x.replace("{i}", str(i)) if isinstance(x, str) else x) for x in o] for o in TOUCH[t]]
+            if via == "new-handle":
+                ops.append(["rgrp", "H"] if i % 2 else ["grp", f"H/n{i}"])
+            ops += [v([(x.replace("{i}", str(i)) if isinstance(x, str) else x) for x in o]) for o in TOUCH[t]]
         out.append(ops)
     # other named shapes
     extra = [
